@@ -352,7 +352,7 @@ func (c *Ctx) zero(t types.Type) Val {
 	case *types.Array:
 		es := c.sortOf(u.Elem())
 		z := c.zero(u.Elem())
-		return Val{K: KArray, T: t, S: fmt.Sprintf("((as const %s) %s)", arrSort("Int", es), z.S), N: u.Len()}
+		return Val{K: KArray, T: t, S: c.ConstArr("Int", es, z.S), N: u.Len()}
 	}
 	panic(fmt.Errorf("zero: unsupported type %s", typeStr(t)))
 }
